@@ -1077,6 +1077,14 @@ func (prop) Execute(scAny any, phase string, log *core.Log) core.Result {
 	if alt >= 2 {
 		res.Count("probe:alternating", 1)
 	}
+	// both objects, after everything that was done to them, seen through the
+	// rest of the public API: like freshly built objects of their values
+	for w := 0; w < 2; w++ {
+		if d := mgeom.TwinDiff(owners[w].g); d != "" {
+			res.Fail("clone-differs", "views-differ:"+s.Kind, "owner %d's object at the end of the programs: %s", w, d)
+			return res
+		}
+	}
 	res.Nontrivial = mutated[0] && mutated[1]
 	if res.Nontrivial {
 		res.Count("probe:both-owners-mutated-in-place", 1)
